@@ -10,6 +10,7 @@ import (
 	"runtime/debug"
 	"strings"
 	"sync"
+	"sync/atomic"
 	"time"
 
 	"verifh/ev"
@@ -60,6 +61,52 @@ type Stats struct {
 type viol struct {
 	path []string
 	msg  string
+}
+
+// ---- watchdog: a call that the alphabet says cannot block, and that never returns ----
+//
+// Every step is registered while it runs; a background goroutine reports a step that has been running
+// for more than stuckAfter as a violation (with the operation sequence that led to it) and ends the
+// process with exit 1 - a hung check would otherwise never deliver a verdict.
+const stuckAfter = 20 * time.Second
+
+type inflight struct {
+	since int64 // unix nano, 0 = idle
+	spec  string
+	desc  func() []string
+}
+
+var (
+	flights   sync.Map // *inflight -> struct{}
+	watchOnce sync.Once
+	watchRun  *ev.Run
+)
+
+func startWatch(r *ev.Run) {
+	watchOnce.Do(func() {
+		watchRun = r
+		go func() {
+			for {
+				time.Sleep(2 * time.Second)
+				now := time.Now().UnixNano()
+				flights.Range(func(k, _ interface{}) bool {
+					f := k.(*inflight)
+					t := atomic.LoadInt64(&f.since)
+					if t != 0 && now-t > int64(stuckAfter) {
+						var names []string
+						if f.desc != nil {
+							names = f.desc()
+						}
+						watchRun.Violate(ev.Violation{Signature: f.spec + ": a call that cannot block according to the reference model does not return", Scenario: f.spec,
+							What:   fmt.Sprintf("the last call of %v has not returned after %v (blocked or looping)", names, stuckAfter),
+							Replay: map[string]interface{}{"spec": f.spec, "ops": names}})
+						watchRun.Finish()
+					}
+					return true
+				})
+			}
+		}()
+	})
 }
 
 func safeStep[S any](op *Op[S], s S) (obs, bad string) {
@@ -130,10 +177,28 @@ func Explore[S any](r *ev.Run, sp *Spec[S]) *Stats {
 	}
 	// replay builds the state reached by path; returns ok=false if a step disagrees (already reported
 	// when it was first taken, so silent here).
+	startWatch(r)
+	var curPath []int
+	fl := &inflight{spec: sp.Name}
+	fl.desc = func() []string {
+		names := make([]string, 0, len(curPath))
+		for _, p := range curPath {
+			if p >= 0 && p < len(sp.Ops) {
+				names = append(names, sp.Ops[p].Name)
+			}
+		}
+		return names
+	}
+	flights.Store(fl, struct{}{})
+	defer flights.Delete(fl)
 	replay := func(path []int) (S, bool) {
 		s := sp.New()
-		for _, p := range path {
-			if _, bad := safeStep(&sp.Ops[p], s); bad != "" {
+		for i, p := range path {
+			curPath = path[:i+1]
+			atomic.StoreInt64(&fl.since, time.Now().UnixNano())
+			_, bad := safeStep(&sp.Ops[p], s)
+			atomic.StoreInt64(&fl.since, 0)
+			if bad != "" {
 				return s, false
 			}
 		}
@@ -168,9 +233,12 @@ func Explore[S any](r *ev.Run, sp *Spec[S]) *Stats {
 				if op.Enabled != nil && !op.Enabled(s) {
 					continue
 				}
-				obs, bad := safeStep(op, s)
-				st.Transitions++
 				path := append(append([]int(nil), n.path...), oi)
+				curPath = path
+				atomic.StoreInt64(&fl.since, time.Now().UnixNano())
+				obs, bad := safeStep(op, s)
+				atomic.StoreInt64(&fl.since, 0)
+				st.Transitions++
 				st.Outcomes[h64(op.Name, obs)] = struct{}{}
 				if bad == "" {
 					bad = safeStr(sp.After, s)
@@ -179,7 +247,9 @@ func Explore[S any](r *ev.Run, sp *Spec[S]) *Stats {
 					// AtEnd may consume the state, so it works on its own copy
 					s2, ok2 := replay(path)
 					if ok2 {
+						atomic.StoreInt64(&fl.since, time.Now().UnixNano())
 						bad = safeStr(sp.AtEnd, s2)
+						atomic.StoreInt64(&fl.since, 0)
 					}
 				}
 				if bad != "" {
@@ -276,12 +346,18 @@ type Ctx struct {
 	nviol    int
 	samples  int
 	stopped  bool
+	beat     int64
+	fl       *inflight
 }
 
 // Case records one evaluated case: class is its outcome class (for distinct counting), bad "" or
 // the disagreement; sig the signature class of the disagreement; sample a printable form.
 func (c *Ctx) Case(class string, bad string, sig string, sample func() interface{}) {
 	c.Cases++
+	if c.fl != nil { // heartbeat for the watchdog: a family whose next case never finishes is reported
+		atomic.AddInt64(&c.beat, 1)
+		atomic.StoreInt64(&c.fl.since, time.Now().UnixNano()+int64(100*time.Second))
+	}
 	if len(c.outcomes) < 100000 {
 		c.outcomes[class] = true
 	}
@@ -318,6 +394,12 @@ func RunFamily(r *ev.Run, f Family) {
 	}
 	t0 := time.Now()
 	c := &Ctx{r: r, name: f.Name, outcomes: map[string]bool{}}
+	startWatch(r)
+	fl := &inflight{spec: f.Name, desc: func() []string { return []string{fmt.Sprintf("case #%d of the family", atomic.LoadInt64(&c.beat)+1)} }}
+	c.fl = fl
+	atomic.StoreInt64(&fl.since, time.Now().UnixNano())
+	flights.Store(fl, struct{}{})
+	defer flights.Delete(fl)
 	func() {
 		defer func() {
 			if rec := recover(); rec != nil {
